@@ -183,7 +183,7 @@ def static_block(draw: Any, depth: int) -> list[dict[str, Any]]:
             stmts.append({"t": "out", "e": ["path", "cap", []]})
         else:
             stmts.append({"t": "case", "e": ["int", draw(st.integers(1, 2))], "lead_ws": draw(st.sampled_from(["", " ", "\n"])),
-                          "whens": [[[["int", 1]], draw(static_block(depth - 1))], [[["int", 2], ["int", 3]], draw(static_block(depth - 1))]][: draw(st.integers(1, 2))],
+                          "whens": [[[["int", 1]], draw(static_block(depth - 1))], [[["int", 2], ["int", 3]], draw(static_block(depth - 1))]][: draw(st.integers(0, 2))],  # 0: a case with no when at all
                           "else": draw(static_block(depth - 1)) if draw(st.booleans()) else None})
     return stmts
 
